@@ -9,7 +9,7 @@ from .chrun import Cond, run_conditions, to_obligations, concrete_reach
 
 HEAD = '''# generated harness module (E1, constant expressions) -- no message-formatting stub here: str(int) is semantic
 from vf import pyharness as H, exprharness as X
-H.setup(formatting_stub=False)
+H.setup(formatting_stub=False, int_str=True)
 X.parser()
 TABLE = %(table)r
 
